@@ -20,7 +20,7 @@ property, each from a different category — (a) two cooperating edits, (b) stat
 (d) boundary size / degenerate input, (e) numeric extreme, (f) wrong / stale variable after a refactoring. Round 3 (`<ID>-r3-<n>`)
 and round 4 (`<ID>-r4-<n>`): the authors were told which workloads and oracles already exist and asked for changes that need a
 rarer coincidence. Round 5 (`<ID>-r5-<group><n>`): eight authors, one per file group, given all twenty statements, chose the
-property themselves. `caught by` lists every check that was run against the change and exits 1; an empty cell (—) means not caught
+property themselves. Round 6 (`<ID>-r6-<n>`): aimed at C05, C13, C16 and C17 after clauses beyond their statements had been removed. `caught by` lists every check that was run against the change and exits 1; an empty cell (—) means not caught
 (DESIGN.md §9 says why the three such round-4 changes are left so).
 
 Every change was confirmed by `tools/seedcheck.sh` in my own scratch worktree before it was filed: the repository's 182 tests pass
